@@ -113,7 +113,7 @@ def implementation_ranges(ck, ctx, fwd, fa):
     (direct enclosures of the computed values; two monotonicity-of-rounding lemmas, stated below)"""
     from engine import realerr
     from engine.ival import I
-    atoms = list(fa.values()) if isinstance(fa, dict) else list(fa)
+    atoms = [fa[i] for i in sorted(fa)] if isinstance(fa, dict) else list(fa)
     def lemmas(n):
         # (Q) |fl(a - b)| <= fl(max - min) for inputs a, b of the pixel, hence |fl(a-b) / fl(max-min)| <= 1 (rounding is monotone)
         if n.op == 'fdiv' and n.args[0].op == 'fsub' and n.args[1].op == 'fsub':
@@ -168,6 +168,94 @@ def implementation_ranges(ck, ctx, fwd, fa):
     ck.ob('C17/tolerance/S', 'PROVED' if up_s <= 1e-4 else 'UNDECIDED',
           f"|computed S - hexcone S| <= {up_s:.3g} <= 1e-4 wherever 0.01 <= L <= 0.99 ({n_s} boxes)" if up_s <= 1e-4 else f"bound {up_s:.3g} after {n_s} boxes, worst box {wbox} ({msg})")
     ck.count('tolerance_boxes', n_l + n_s)
+    try:
+        hue_tolerance(ck, ctx, fwd, atoms, lemmas)
+    except Unsupported as ex:
+        ck.ob('C17/tolerance/H', 'UNDECIDED', f"hue kernel not of the expected shape: {ex}")
+
+def hue_tolerance(ck, ctx, fwd, atoms, lemmas):
+    """|computed H - hexcone H| <= 0.01 degrees (as angles) wherever max - min >= 0.01.
+    The kernel is  c < eps ? 0 : |v-r| < eps ? W(Hr) : |v-g| < eps ? W(Hg) : W(Hb),  W the wrap into [0,360).
+    (1) rounding error of each sextant formula Hr, Hg, Hb on {max - min >= 0.01} by error propagation;
+    (2) where the epsilon test selects the formula of a channel that is within eps of the maximum but is not the
+        maximum, the two formulas differ by (x_taken - max) * K / (max - min) exactly (sympy), i.e. by <= eps K / 0.01;
+    (3) the wrap adds 360 (one rounding of a value below 360) and maps 360 to 0: the same angle."""
+    from engine import realerr
+    from engine.ival import I
+    EPS = 2.0 ** -23
+    top = fwd.fields[0]
+    def unwrap(W):
+        if W.op == 'select' and W.args[0].op == 'lt' and W.args[0].args[1].is_const and W.args[0].args[1].val == 0.0 and W.args[2] is W.args[0].args[0]:
+            inner = W.args[1]
+            h = W.args[2]
+            ok = inner.op == 'select' and inner.args[0].op == 'lt' and inner.args[0].args[1].is_const and inner.args[0].args[1].val == 360.0 and inner.args[1] is inner.args[0].args[0] \
+                and inner.args[1].op == 'fadd' and inner.args[1].args[0] is h and inner.args[1].args[1].is_const and inner.args[1].args[1].val == 360.0 and inner.args[2].is_const and inner.args[2].val == 0.0
+            if ok: return h
+        raise Unsupported('hue wrap is not  h < 0 ? (h + 360 < 360 ? h + 360 : 0) : h')
+    def eps_test(c):
+        if c.op in ('lt', 'le') and c.args[1].is_const and 0 < float(c.args[1].val) < 0.1 and c.args[0].op == 'call:abs' and c.args[0].args[0].op == 'fsub':
+            return c.args[0].args[0].args + (float(c.args[1].val),)
+        raise Unsupported('sextant test is not |a - b| < constant')
+    if not (top.op == 'select' and top.args[1].is_const and top.args[1].val == 0.0):
+        raise Unsupported('no achromatic guard')
+    cnode = top.args[0].args[0].args[0] if top.args[0].op == 'lt' and top.args[0].args[0].op == 'call:abs' else None
+    if cnode is None or not (cnode.op == 'fsub' and _tree(cnode.args[0], 'call:max', atoms) and _tree(cnode.args[1], 'call:min', atoms)):
+        raise Unsupported('achromatic guard does not test max - min')
+    b1 = top.args[2]
+    if not (b1.op == 'select' and b1.args[2].op == 'select'):
+        raise Unsupported('no chain of two sextant tests')
+    (v1, x1, k1), (v2, x2, k2) = eps_test(b1.args[0]), eps_test(b1.args[2].args[0])
+    tol = {x1.id: k1, x2.id: k2}
+    ids = [a.id for a in atoms]
+    if not (v1 is cnode.args[0] and v2 is cnode.args[0] and x1.id in ids and x2.id in ids and x1 is not x2):
+        raise Unsupported('sextant tests do not compare the maximum with two different channels')
+    x3 = [a for a in atoms if a is not x1 and a is not x2][0]
+    H = {x1.id: unwrap(b1.args[1]), x2.id: unwrap(b1.args[2].args[1]), x3.id: unwrap(b1.args[2].args[2])}
+    order = [x1, x2, x3]                      # test order of the code
+    names = {a.id: 'rgb'[i] for i, a in enumerate(atoms)}
+    # (1) rounding error of the three formulas where max - min >= 0.01
+    def region_lemmas(n):
+        if n is cnode:
+            return I(0.01 - 1e-7, 1.0)
+        return lemmas(n)
+    def feasible(env):
+        V = realerr.errprop(cnode, env, None, lemmas)[0]
+        return V.hi >= 0.01 - 1e-7
+    E = {}
+    boxes = 0
+    for a in order:
+        up_, n_, wbox, msg = realerr.sup_error_nd(H[a.id], atoms, None, [(0.0, 1.0)] * 3, 2e-3, max_boxes=20000, lemmas=region_lemmas, feasible=feasible)
+        E[a.id] = up_; boxes += n_
+    ck.count('tolerance_boxes', boxes)
+    # (2) symbolic gap in the slivers
+    R, G, B = sp.symbols('r g b', real=True)
+    sy = {atoms[0].id: R, atoms[1].id: G, atoms[2].id: B}
+    WRAP = 360.0 * 2.0 ** -24 * 1.01
+    for mi, M in enumerate(order):
+        for ti, T_ in enumerate(order[:mi + 1]):
+            key = f"C17/tolerance/H/max-{names[M.id]}/formula-{names[T_.id]}"
+            gap = 0.0
+            if T_ is not M:
+                # sample point: M maximal, T within eps/2 of it, the remaining channel the minimum
+                other = [a for a in atoms if a is not M and a is not T_][0]
+                pt = {M.id: Fr(1, 2), T_.id: Fr(1, 2) - Fr(1, 2 ** 30), other.id: Fr(1, 5)}
+                eT = resolve_at(H[T_.id], pt, sy)[0]; eM = resolve_at(H[M.id], pt, sy)[0]
+                K = None
+                for turn in (0, 360, -360):          # hue is an angle: the two formulas may differ by a full turn before wrapping
+                    diff = sp.cancel(eT - eM + turn)
+                    q = sp.cancel(diff / (sy[T_.id] - sy[M.id]))
+                    Kc = sp.cancel(q * (sy[M.id] - sy[other.id]))
+                    if not Kc.free_symbols:
+                        K = Kc; break
+                if K is None:
+                    ck.ob(key, 'UNDECIDED', f"difference of the two sextant formulas is not (x_taken - max) * K / (max - min) modulo 360: {sp.simplify(sp.cancel(eT - eM))}"); continue
+                gap = tol[T_.id] * abs(float(K)) / (0.01 - 1e-7) * (1 + 1e-6)       # the code's own tie tolerance for that channel
+            total = E[T_.id] + gap + WRAP
+            ck.ob(key, 'PROVED' if total <= 0.01 else 'UNDECIDED',
+                  (f"|H - hexcone H| <= {E[T_.id]:.3g} (rounding of the {names[T_.id]}-formula)" + (f" + {gap:.3g} (formula of a channel within eps of the maximum)" if gap else '') + f" + {WRAP:.2g} (wrap) = {total:.3g} <= 0.01 degrees where max - min >= 0.01")
+                  if total <= 0.01 else f"bound {total:.3g} exceeds 0.01")
+            ck.count('hue_regions')
+    ck.floor('hue_regions', 6)
 
 def range_witness(ctx, e, atoms, lo, hi, strict):
     """constant folding of the kernel at saturated colours whose maximum has low-order mantissa bits set"""
@@ -275,5 +363,5 @@ def run(tier):
         ck.ob(f"C17/doc/L={lv}", 'PROVED' if ok else 'REFUTED', f"L = {lv} gives ({want},{want},{want}) for every finite hue and saturation" if ok else f"L = {lv} gives {[[X.show(x, 4) for x in v] for v in vals]}")
     implementation_ranges(ck, ctx, fwd, fa)
     ck.floor('cells', 12)
-    ck.note('not_decided', ['H within 0.01 deg and the round trip within 1e-5 under rounding (formula level only)', 'S >= 0 for the computed value (formula level)', 'the epsilon-slivers around ties for H'])
+    ck.note('not_decided', ['the round trip within 1e-5 under rounding (formula level only)', 'S >= 0 for the computed value (formula level)'])
     return ck.finish()
